@@ -54,6 +54,9 @@ class MgrProp(core.Prop):
         return core.Case(desc, line, impl, key=json.dumps([kind, shuffle, script, sess.ops], sort_keys=True),
                          nontrivial=finishes, tags=tags, origin=origin)
 
+    def runtime_failures_of_replay(self):
+        return list(getattr(self, "runtime_failures", []))
+
     def extra_checks(self, tier, rng, report):
         seen = set()
         for what, desc in getattr(self, "runtime_failures", []):
